@@ -17,10 +17,11 @@ E == Tr[l]
 Flag(c, ok) == IF ok THEN {} ELSE {c}
 Init == /\ tid \in 1..Len(Traces) /\ l = 1 /\ bad = {}
         /\ R = [acc |-> {}, rc4 |-> {}, rc5 |-> {}, eodok |-> {}, eod4 |-> {}, eod5 |-> {}, msg |-> 0,
-                fails |-> {}, msg5 |-> FALSE, stall |-> -1, returned |-> FALSE, nrcpt |-> 0, mailcls |-> 0, early |-> {}]
+                fails |-> {}, msg5 |-> FALSE, stall |-> -1, returned |-> FALSE, nrcpt |-> 0, mailcls |-> 0, early |-> {}, nonrcpt |-> FALSE]
 Cls(c) == c \div 100
 \* failure events the downstream produced: "4", "5" (reply classes) and "x" (disconnect, garbage, silence, refusal)
-FailOf(e) == IF e.act = "code" THEN (IF Cls(e.code) = 4 THEN {"4"} ELSE IF Cls(e.code) = 5 THEN {"5"} ELSE {}) ELSE {"x"}
+FailOf(e) == IF e.stage = "starttls_opt" /\ e.act = "code" THEN {}      \* STARTTLS refused, TLS not required: delivery goes on in clear
+             ELSE IF e.act = "code" THEN (IF Cls(e.code) = 4 THEN {"4"} ELSE IF Cls(e.code) = 5 THEN {"5"} ELSE {}) ELSE {"x"}
 EvCall == /\ E.t = "call" /\ R' = [R EXCEPT !.nrcpt = E.nrcpt] /\ bad' = bad
 EvPeer ==
   /\ E.t = "peer"
@@ -28,7 +29,7 @@ EvPeer ==
          relevant == E.stage \notin {"quit", "rset"} \/ ~R.returned
      IN R' = [R EXCEPT !.fails = IF E.stage = "quit" THEN @ ELSE @ \cup f,
                        \* a 5xx answer that concerns the whole message (not one recipient among several)
-                       !.msg5 = @ \/ (E.act = "code" /\ Cls(E.code) = 5 /\ E.stage \in {"banner", "ehlo", "helo", "mail", "data", "exit", "http", "dns"})
+                       !.msg5 = @ \/ (E.act = "code" /\ Cls(E.code) = 5 /\ E.stage \in {"banner", "ehlo", "helo", "starttls", "auth", "mail", "data", "exit", "http", "dns"})
                                   \/ (E.act = "code" /\ Cls(E.code) = 5 /\ E.stage = "eod" /\ ~T.cfg.lmtp),
                        !.acc = IF E.stage = "rcpt" /\ E.act = "code" /\ Cls(E.code) = 2 THEN @ \cup {E.i} ELSE @,
                        !.rc4 = IF E.stage = "rcpt" /\ E.act = "code" /\ Cls(E.code) = 4 THEN @ \cup {E.i} ELSE @,
@@ -36,7 +37,10 @@ EvPeer ==
                        !.eodok = IF E.stage = "eod" /\ E.act = "code" /\ Cls(E.code) = 2 THEN @ \cup {E.i} ELSE @,
                        !.eod4 = IF E.stage = "eod" /\ E.act = "code" /\ Cls(E.code) = 4 THEN @ \cup {E.i} ELSE @,
                        !.eod5 = IF E.stage = "eod" /\ E.act = "code" /\ Cls(E.code) = 5 THEN @ \cup {E.i} ELSE @,
-                       !.stall = IF E.act = "stall" /\ R.stall = -1 THEN E.now ELSE @]
+                       !.stall = IF E.act = "stall" /\ R.stall = -1 THEN E.now ELSE @,
+                       \* something other than the refusal of a recipient went wrong (before the result was set)
+                       !.nonrcpt = @ \/ (f # {} /\ E.stage \notin {"rcpt", "quit", "rset"})
+                                     \/ (f # {} /\ E.stage = "rcpt" /\ E.act # "code")]
   /\ bad' = bad
 Rcpts == 0..(R.nrcpt - 1)
 \* the downstream positively accepted recipient i and the message (per recipient for LMTP)
@@ -58,6 +62,13 @@ EvRet ==
                  /\ (E.kind = "map" /\ T.cfg.kind = "smtp") =>
                        \A i \in Rcpts : /\ E.per[i + 1] = "P" => (i \in R.rc5 \/ i \in R.eod5 \/ (~T.cfg.lmtp /\ 0 \in R.eod5))
                                         /\ E.per[i + 1] = "T" => (i \in R.rc4 \/ i \in R.eod4 \/ (~T.cfg.lmtp /\ 0 \in R.eod4) \/ "x" \in R.fails))
+       \* when the only thing that went wrong is that recipients were refused, each of them is reported with the class
+       \* of its own refusal, also when the others were refused differently
+       \cup Flag("C11_OwnClass",
+                 (T.cfg.kind = "smtp" /\ ~R.nonrcpt /\ E.kind \in {"raise", "map"}) =>
+                     \A i \in Rcpts : LET rep == IF E.kind = "raise" THEN E.cls ELSE E.per[i + 1] IN
+                                       /\ (i \in R.rc5 /\ i \notin R.rc4) => rep = "P"
+                                       /\ (i \in R.rc4 /\ i \notin R.rc5) => rep = "T")
        \cup Flag("C11_NoSpuriousFailure", R.fails = {} => E.kind \in {"whole", "map"} /\ \A i \in Rcpts : E.per[i + 1] = "ok")
        \cup Flag("C14_Bounded", R.stall # -1 => E.now <= T.cfg.deadline)
        \cup Flag("C14_TransientOnTimeout", (R.stall # -1 /\ R.fails = {"x"}) =>
@@ -69,7 +80,10 @@ EvEnd == /\ E.t = "end" /\ R' = R
 EvOther == /\ E.t \in {"conn", "advance", "peer_content"} /\ R' = R /\ bad' = bad
 \* MX relay: hosts sorted by preference, the one tried is chosen by the attempt number
 EvMx == /\ E.t = "mx" /\ R' = R /\ bad' = bad \cup Flag("C11_MxChoice", E.n >= 1 /\ E.rank = E.attempts % E.n)
-Next == /\ l <= Len(Tr) /\ (EvCall \/ EvPeer \/ EvRet \/ EvEnd \/ EvOther \/ EvMx) /\ l' = l + 1 /\ UNCHANGED tid
+\* model replay (drivers/c11m.py): the real relay held another conversation / returned another result than spec/RelayClient.tla
+EvDrift == /\ E.t = "drift" /\ R' = R
+           /\ bad' = bad \cup Flag("DRIFT_Result", ~E.result) \cup Flag("DRIFT_Conversation", ~E.conv)
+Next == /\ l <= Len(Tr) /\ (EvCall \/ EvPeer \/ EvRet \/ EvEnd \/ EvOther \/ EvMx \/ EvDrift) /\ l' = l + 1 /\ UNCHANGED tid
 Spec == Init /\ [][Next]_vars
 AtEnd == l = Len(Tr) + 1
 Watch == AtEnd => PrintT(<<"END", T.id, bad>>)
